@@ -10,6 +10,8 @@ package otr3
 import (
 	"sync"
 	"bytes"
+	"crypto/aes"
+	"crypto/cipher"
 	"crypto/sha256"
 	"encoding/binary"
 	"encoding/json"
@@ -158,6 +160,18 @@ func vAssert(id string, c bool) {
 // vFinding: a specific failing history recognised by the harness; reported like
 // a failed assertion, execution continues.
 func vFinding(id string) { vAssert(id, false) }
+
+// vAESCTR: AES in counter mode straight from the standard library (reference
+// side of the wire-format harnesses).
+func vAESCTR(key, iv, src []byte) []byte {
+	blk, err := aes.NewCipher(key)
+	if err != nil {
+		panic(err)
+	}
+	dst := make([]byte, len(src))
+	cipher.NewCTR(blk, iv).XORKeyStream(dst, src)
+	return dst
+}
 
 func vReach(id string) {}
 
